@@ -5,7 +5,8 @@ usage: tools_record_fix.py <property> <mechanism key> <what failed (one line)> <
 import json, re, subprocess, sys
 prop, key, summary, witness = sys.argv[1:5]
 col = sys.argv[5] if len(sys.argv) > 5 else prop
-h = subprocess.run(['git', '-C', '/repo', 'log', '--format=%h', '-1'], capture_output=True, text=True).stdout.strip()
+import os
+h = os.environ.get('FIX_COMMIT') or subprocess.run(['git', '-C', '/repo', 'log', '--format=%h', '-1'], capture_output=True, text=True).stdout.strip()
 p = '/verif/known_findings.json'
 k = json.load(open(p))
 assert not any(f.get('commit') == h for f in k['findings']), 'already recorded'
